@@ -210,7 +210,7 @@ func main() {
 		var f *ssa.Function
 		if pp == "vrt" {
 			f = vrtPkg.Func(fnName)
-		} else if pp == "." || pp == target.Pkg.Path() {
+		} else if pp == "" || pp == "." || pp == target.Pkg.Path() {
 			f = target.Func(fnName)
 		}
 		if f == nil {
